@@ -38,3 +38,18 @@ CLAIMED["C05"] = (
     "splice from another session, reflection, truncation) and judged through the real FramedRead / WebSocketFramed / UDP codecs; hundreds of "
     "random attacked runs are recorded and validated by TLC against the same design with real lengths.",
     TB + "; ideal-AEAD abstraction (DESIGN 2.3)", "5.5")
+CLAIMED["C13"] = (
+    "model_checking", "TLA+ LocalHandshake (every segmentation / early close, TLC exhaustive) + HttpTarget grammar catalogue, replayed on the real get_request_addr over loopback TCP and the real authority parser",
+    "TLC checks the code-shaped local-port design (sniff, SOCKS5 greeting/request, CONNECT head, plain HTTP) for every segmentation and early close of "
+    "every handshake kind, well-formed or not, and enumerates 2 480 request targets with the (host, port) each names; every target is run through the "
+    "real authority-extraction helper and every model behaviour (sampled in the quick tier) against the real handshake over a loopback connection, "
+    "comparing target, replies and the bytes left for the tunnel.",
+    TB + "; loopback timing (25 ms pauses)", "5.13")
+CLAIMED["C07"] = (
+    "model_checking", "TLA+ StreamCodec/LocalHandshake/Malformed NoPanic (TLC exhaustive), malformed-content catalogue and garbage/truncation sweeps on every real decoder, trace validation",
+    "Reduced scope: panics/aborts. TLC checks NoPanic of the guard-structure models for every layout, segmentation, tamper point and end-of-stream point, of the "
+    "local handshake for every segmentation/early close, and the malformed-content catalogue; each named unguarded-read deviation must violate it. The catalogue "
+    "(right keys, wrong content) is built with the reference codec and judged by the real decoders; exhaustive short inputs, seeded random inputs and every truncation "
+    "of valid streams with end of stream go through the real adapters under catch_unwind; hostile local handshakes run over real TCP; recorded attacked runs are "
+    "validated by TLC with NoPanic evaluated in every state.",
+    TB + "; undefined behaviour that does not crash is not observable and not claimed", "5.7")
